@@ -16,6 +16,7 @@ import cbor2
 
 import seclib as S
 
+KW_HEX = {}
 KINDS_QUICK = 3
 KINDS_THOROUGH = 30
 
@@ -147,6 +148,18 @@ def make_cases(chk, rng, ib, kmac, kenc, accept):
         add('second-bcb-bad-after-good', [ca, cb], True, [(n1, e0, 'ok'), (n2, 1, 'fail')], base=S.alter_btsd(blab, 1), plain=pl2, d='D15')
         add('second-bcb-unknown-key-after-good', [ca, cz], True, [(n1, e0, 'ok'), (n2, 1, 'fail')], base=blaz, plain=pl2, d='D15')
         add('first-bcb-bad-second-good', [ca, cb], True, [(n1, e0, 'fail'), (n2, 1, 'ok')], base=S.alter_btsd(blab, e0), plain=pl2)
+    # --- COSE_Sign1 with an x5chain certificate: the key is usable only if the certificate names the security source
+    mat = S._sign1_material()
+    add('sign1-valid', [S.craft_bib_sign1(chk, ib, mat['key'], mat['match'], [1], n1, sc)], False, [(n1, 1, 'ok')])
+    for cert in ('other-node-id', 'dns-only', 'no-san'):
+        add('sign1-certificate-%s' % cert, [S.craft_bib_sign1(chk, ib, mat['key'], mat[cert], [1], n1, sc)], True, [(n1, 1, 'fail')])
+    add('sign1-wrong-signing-key', [S.craft_bib_sign1(chk, ib, mat['other_key'], mat['match'], [1], n1, sc)], True, [(n1, 1, 'fail')])
+    # --- COSE_Encrypt with several key-wrap recipients, ours at every position / absent
+    cek = bytes(rng.getrandbits(8) for _ in range(32))
+    for name, recips, has_ours in S.recipient_orders(KW_HEX, rng):
+        rb, rblocks = S.craft_bcb_kw(chk, ib, recips, cek, [1], n1, [iv()], sc)
+        add('recipients-%s' % name, [rb], not has_ours, [(n1, 1, 'ok' if has_ours else 'fail')], base=rblocks, plain=plain,
+            payload=pay['btsd'] if (accept and has_ours) else None)
     # --- a security result with an ATTACHED payload (copy of the original target data): the block in the bundle counts
     def _attach(c):
         rid, val = c['results'][0][0]
@@ -209,8 +222,11 @@ def receivers(keys, kmac_bytes, kenc_bytes, rng, accept):
         b'mac': SymmetricKey(k=bytes(x ^ 0x55 for x in kmac_bytes), optional_params={KpAlg: HMAC256, KpKid: b'mac', KpKeyOps: [MacCreateOp, MacVerifyOp]}),
         b'enc': SymmetricKey(k=bytes(x ^ 0x55 for x in kenc_bytes), optional_params={KpAlg: A256GCM, KpKid: b'enc', KpKeyOps: [EncryptOp, DecryptOp]}),
     }
-    return {'same': S.Receiver(keys, accept=accept), 'wrong': S.Receiver(wrong, accept=accept),
-            'missing': S.Receiver({}, accept=accept)}
+    out = {'same': S.Receiver(keys, accept=accept), 'wrong': S.Receiver(wrong, accept=accept),
+           'missing': S.Receiver({}, accept=accept)}
+    for r in out.values():
+        r.ctx._ca_certs = [S._sign1_material()['ca']]
+    return out
 
 
 def run_case(chk, case, ib, accept, rcvs, keyhex=None):
@@ -329,6 +345,7 @@ def run(chk):
     kmac = bytes(rng.getrandbits(8) for _ in range(32))
     kenc = bytes(rng.getrandbits(8) for _ in range(32))
     keys = S.keyset(rng)
+    KW_HEX['kw'] = bytes(keys[b'kw'].k).hex()
     from pycose.keys import SymmetricKey
     from pycose.keys.keyparam import KpAlg, KpKid, KpKeyOps
     from pycose.keys.keyops import MacCreateOp, MacVerifyOp, EncryptOp, DecryptOp
@@ -342,35 +359,27 @@ def run(chk):
             ib, _payload = S.plain_bundle(rng, chk.tier, payload=b'\x00', extra=1)
         for accept in (False, True):
             rcvs = receivers(keys, kmac, kenc, rng, accept)
-            recs = [run_case(chk, case, ib, accept, rcvs, keyhex=dict(mac=kmac.hex(), enc=kenc.hex()))
+            recs = [run_case(chk, case, ib, accept, rcvs, keyhex=dict(mac=kmac.hex(), enc=kenc.hex(), kw=KW_HEX['kw']))
                     for case in make_cases(chk, rng, ib, kmac, kenc, accept)]
             if bi < 2:
                 if bi not in adm:
                     adm[bi] = S.plain_status_report(rng)
-                recs += [run_case(chk, case, adm[bi], accept, rcvs, keyhex=dict(mac=kmac.hex(), enc=kenc.hex()))
+                recs += [run_case(chk, case, adm[bi], accept, rcvs, keyhex=dict(mac=kmac.hex(), enc=kenc.hex(), kw=KW_HEX['kw']))
                          for case in admin_cases(chk, rng, adm[bi], kenc, accept)]
             for rec, ans in zip(recs, chk.driver([r['req'] for r in recs])):
                 judge(chk, rec, ans)
 
 
 def _keys_from(keyhex, variant):
-    from pycose.keys import SymmetricKey
-    from pycose.keys.keyparam import KpAlg, KpKid, KpKeyOps
-    from pycose.keys.keyops import MacCreateOp, MacVerifyOp, EncryptOp, DecryptOp
-    from pycose.algorithms import HMAC256, A256GCM
-    if variant == 'missing':
-        return {}
-    x = 0x55 if variant == 'wrong' else 0
-    km = bytes(b ^ x for b in bytes.fromhex(keyhex['mac']))
-    ke = bytes(b ^ x for b in bytes.fromhex(keyhex['enc']))
-    return {b'mac': SymmetricKey(k=km, optional_params={KpAlg: HMAC256, KpKid: b'mac', KpKeyOps: [MacCreateOp, MacVerifyOp]}),
-            b'enc': SymmetricKey(k=ke, optional_params={KpAlg: A256GCM, KpKid: b'enc', KpKeyOps: [EncryptOp, DecryptOp]})}
+    return S.keys_from_hex({k: v for k, v in keyhex.items() if k in ('mac', 'enc', 'kw')}, variant)
 
 
 def replay(chk, path):
     obj = json.load(open(path))
     r = obj.get('replay', obj)
     rcv = S.Receiver(_keys_from(r['keys'], r.get('receiver_keys', 'same')), accept=bool(r.get('accept')))
+    rcv.ctx._ca_certs = [S._sign1_material()['ca']]
+    S.install_mac_kw_shim()
     out = rcv.feed(bytes.fromhex(r['data']))
     print('kind=%s accept=%s defective_by_construction=%s' % (r.get('kind'), r.get('accept'), r.get('defective_by_construction')))
     print('recorded :', json.dumps(r.get('observed')))
